@@ -77,7 +77,7 @@ func checkC09(c *ctx) {
 	items, err := loadCorpus(filepath.Join(c.Root, "corpus"))
 	must(err)
 	if len(items) == 0 {
-		must(fmt.Errorf("frozen corpus is empty"))
+		mustH(fmt.Errorf("frozen corpus is empty"))
 	}
 	for _, it := range items {
 		zap.LegacyChunkMode = it.dvchunk
@@ -169,6 +169,9 @@ func checkC09(c *ctx) {
 			return
 		}
 	}
+	// a merge in which deletions take a term's cardinality across a multiple of 1024: the chunk
+	// size recorded nowhere must be derivable from the merged bitmap (frozen parser on the output)
+	boundaryMerges(c, []int{pDicts, pDV}, "C09", 1)
 }
 
 // ---------- corpus generation (run once, against the pinned commit) ----------
@@ -193,12 +196,12 @@ func genCorpus(c *ctx, dir string) {
 		sb, obs, spec, err := buildObs(c, b, mode)
 		must(err)
 		if d := partsDiffer(obs, spec, allParts); len(d) > 0 {
-			must(fmt.Errorf("corpus generation: pinned code disagrees with the spec in %v on %s", d, desc))
+			mustH(fmt.Errorf("corpus generation: pinned code disagrees with the spec in %v on %s", d, desc))
 		}
 		data, err := zh.FileBytes(sb)
 		must(err)
 		if p := parseBytesAgainst(c, data, spec, allParts); p != "" {
-			must(fmt.Errorf("corpus generation: parser disagrees on %s: %s", desc, p))
+			mustH(fmt.Errorf("corpus generation: parser disagrees on %s: %s", desc, p))
 		}
 		save(fmt.Sprintf("built mode=%d %s", mode, desc), data, spec, false)
 		return &segEnt{seg: sb, spec: spec, n: uint64(len(b)), prov: "built"}
@@ -210,7 +213,7 @@ func genCorpus(c *ctx, dir string) {
 		}
 		bad, r, spec := mergeVerdict(c, mc, allParts, true)
 		if bad != "" {
-			must(fmt.Errorf("corpus generation: merge %s: %s", desc, bad))
+			mustH(fmt.Errorf("corpus generation: merge %s: %s", desc, bad))
 		}
 		save(fmt.Sprintf("merged mode=%d %s", mode, desc), r.fileData, spec, true)
 		return &segEnt{seg: r.seg, spec: spec, n: spec.L[pNDocs].N, prov: "merged"}
